@@ -593,7 +593,12 @@ def sym_dsp_base(vc):
             check(it, 'no-buffering', not [e for e in events if e.kind == 'Drain'])
             cover(it, 'iter-reachable')
         it.loops['DataStreamProcessor.process_resource#L0'] = LoopSpec(at_start=at_start, at_end=at_end)
-        it.run_generator(it.call(it.lib.getattr_(it, d, 'process_resource'), [r]))
+        g = it.call(it.lib.getattr_(it, d, 'process_resource'), [r])
+        # C04: the row step runs INSIDE a generator frame of the library: a StopIteration escaping a user's row function (a bare
+        # next() on an exhausted iterator) is then turned into a RuntimeError (PEP 479) and fails the run.  Handed to map() /
+        # filter() / a bare iterator protocol it would pass for the end of the stream: rows silently missing, run successful.
+        check(it, 'row-step-runs-inside-a-generator-frame-so-its-StopIteration-cannot-end-the-stream', isinstance(g, GenObj))
+        it.run_generator(g)
         if not [e for e in it.path.events if e.kind == 'Pull']:
             check(it, 'drains', r.stream.drained is True)
             check(it, 'silent-after-exhaustion', not yields_of(it.path.events))
